@@ -18,7 +18,7 @@ func checkC19(c *an.Ctx) {
 	c.Rule("C19.1", "raw (E5/E10): rawOutputDecorator.Write calls the underlying writer exactly once with its argument itself and returns that call's results; no Write in pkg/output modifies or retains the caller's buffer")
 	c.Rule("C19.2", "one write per line (E10): every path of lineWriter.Write makes exactly one call writing to its destination, carrying the task name, \": \", the stripped payload and the terminator; the prefixed and raw decorators share no mutable package-level state")
 	c.Rule("C19.3", "all bytes are forwarded (E3): in the prefixed Write every consumed line is written to the line buffer before the input advances by exactly what the scanner consumed, the remainder is written after the loop, a nil-error return reports len(p), and WriteFooter flushes the buffer")
-	c.Rule("C19.4", "Finish without Start (E8/E9): NewTaskOutput covers every exported Format constant; for every decorator, a field assigned only under WriteHeader and dereferenced under WriteFooter is nil-tested first (Run always finishes the output but starts it only before the commands)")
+	c.Rule("C19.4", "Finish without Start (E8/E9): NewTaskOutput covers every exported Format constant; for every decorator, a field assigned only under WriteHeader and dereferenced under WriteFooter is nil-tested first (Run always finishes the output but starts it only before the commands); an index or slice bound taken from sort.Search on a list of started tasks is tested against the length first (the result is the length when the task was never added)")
 	c.Rule("C19.5", "presentation only (E4): pkg/output never writes the task's result fields; in Run the output format is consumed only by NewTaskOutput; Finish's error is logged, never returned")
 	c.Rule("C19.6", "lock order (E8): no function of pkg/output calls a lock-taking method of a shared spinner while holding a mutex that one of the spinner's callbacks (run under the spinner's lock) acquires")
 	c.Summaries = append(c.Summaries, "github.com/briandowns/spinner: Start/Stop/Restart/Reverse/UpdateSpeed/UpdateCharSet/Active take the spinner's lock; the spinner goroutine calls PreUpdate/PostUpdate while holding it (read in spinner.go)")
@@ -90,6 +90,7 @@ func checkC19(c *an.Ctx) {
 	lineWriterRule(c, "C19.2")
 	prefixedForwarding(c, "C19.3")
 	finishWithoutStart(c, "C19.4")
+	searchBounds(c, "C19.4", "pkg/output")
 	presentationOnly(c, "C19.5")
 	lockOrder(c, "C19.6")
 }
